@@ -304,6 +304,31 @@ def check_counter_survives_to_detector(res: Result, db, entry: str) -> int:
       for k in e.writes:
         reset_at.setdefault(k, []).append((i, "host zero_/fill_ in " + (e.ev.stack[-1] if e.ev.stack else "?"), e.ev.pc))
   n = 0
+  # (O3c) flag-conditioned detection: under every single disable/enable flag, an allocating launch that stays reachable
+  # must be followed by a detector launch that stays reachable (three-valued evaluation of the host path conditions)
+  from .r_flags import FlagEnv
+
+  flags = ["DisableBit." + m_ for m_ in db.sm.enums.get("DisableBit", {})] + ["EnableBit." + m_ for m_ in db.sm.enums.get("EnableBit", {})]
+  for flag in flags:
+    env = FlagEnv(flag, True)
+    for c, dets in sorted(det_at.items()):
+      live_dets = [d for d in dets if env.pc_host(effs[d].ev.pc) is not False]
+      for i, name, loc, pc in alloc_at.get(c, []):
+        if env.pc_host(pc) is False:
+          continue
+        if not any(d > i for d in dets):
+          continue  # no after-the-fact detector at all for this allocation: O3's business
+        n += 1
+        res.ob(
+          any(d > i for d in live_dets),
+          f"{entry}|{flag}|{c}|{name}|detector-reachable",
+          Finding(
+            "R-CAP.3c",
+            f"{entry}|{flag}|{c}|{name}|detector-unreachable",
+            f"with {flag} set, {name} still allocates from {c} under a dropping capacity guard, but every later overflow detector of that counter ({', '.join(sorted({effs[d].ev.name for d in dets if d > i}))}) becomes unreachable: blocks dropped under this flag are never reported",
+            loc,
+          ),
+        )
   for c, dets in sorted(det_at.items()):
     for i, name, loc, pc in alloc_at.get(c, []):
       later = [d for d in dets if d > i]
